@@ -19,7 +19,9 @@ RULE = ("programs = Struct(header n,m,f,s,e,b2 + 2..7 members drawn from ~45 slo
         "scopes, probes) with expression parameters from a typed expression generator (int-valued, bool-valued; every operator incl. reflected and unary "
         "forms, str/bytes constants, falsy values, lengths above 255); inputs = header value grid x patterned/random tails; every input the interpreter "
         "accepts is compared (parse value, rebuilt bytes from the parsed value, the same value with derived members left out); every fourth program is "
-        "context-sized (all members sized by this._params.k) and sizeof is asked under a sequence of 7 keyword contexts on the same compiled instance. non-trivial = program with >= 2 natively emitted classes and "
+        "context-sized (all members sized by this._params.k) and sizeof is asked under a sequence of 7 keyword contexts on the same compiled instance; every "
+        "fourth is dedicated to self-derived members (each left out one at a time); plus rooted formats (outermost Sequence / FocusedSeq / repeater / Prefixed region "
+        "with this._root references, FocusedSeqs whose earlier members depend on the focused one) and RepeatUntil predicates over list_. non-trivial = program with >= 2 natively emitted classes and "
         ">= 1 expression parameter on an accepted input; distinct by hash of the generated source")
 ASSUMPTIONS = ["documented exclusions are not generated: _index/Index, parsed hooks, discard, _subcons/_io, plain lambdas, Debugger",
                "inputs the interpreter rejects claim nothing (generated code omits length checks by design)",
